@@ -950,7 +950,7 @@ func (c *specCtx) evalCall(n *ECall) Val {
 		if !ok {
 			c.fail("keyId needs a string")
 		}
-		return VInt{App("mapkey$id", IntS, sv.Obj)}
+		return VInt{strKeyId(sv)}
 	case "keyString": // the text of the string key with identity k (string-keyed maps are only iterated, never indexed)
 		k := c.evalInt(n.Args[0])
 		return VString{App("mapkey$obj", IntS, k), Zero, App("mapkey$len", IntS, k)}
